@@ -433,6 +433,19 @@ fn catalogue() -> Vec<Prog> {
 /// dependent fast paths are taken) while another thread performs TWO further read-modify-writes on
 /// the same word - the shape a multi-step (load / compare-exchange / store) rewrite of X loses a
 /// foreign update in. Every interleaving is executed; the quiescent final read is part of the check.
+/// Program names live in a static table (reachable at exit, so not a leak for Miri).
+fn intern(s: String) -> &'static str {
+    use std::sync::Mutex;
+    static NAMES: Mutex<Vec<&'static str>> = Mutex::new(Vec::new());
+    let mut g = NAMES.lock().unwrap();
+    if let Some(n) = g.iter().find(|n| **n == s) {
+        return n;
+    }
+    let n: &'static str = Box::leak(s.into_boxed_str());
+    g.push(n);
+    n
+}
+
 fn systematic() -> Vec<Prog> {
     use Op::*;
     let xs: Vec<(&str, Vec<Op>)> = vec![
@@ -455,13 +468,13 @@ fn systematic() -> Vec<Prog> {
     let mut v = vec![];
     for (xn, x) in &xs {
         for (fnm, f) in &foreign {
-            let name: &'static str = Box::leak(format!("sys/{}-vs-{}", xn, fnm).into_boxed_str());
+            let name = intern(format!("sys/{}-vs-{}", xn, fnm));
             v.push(Prog { name, pages: 70, threads: vec![x.clone(), f.clone()] });
         }
     }
     // three threads: X vs one marker and one harvester
     for (xn, x) in xs.iter().take(4) {
-        let name: &'static str = Box::leak(format!("sys3/{}-vs-marker-vs-harvester", xn).into_boxed_str());
+        let name = intern(format!("sys3/{}-vs-marker-vs-harvester", xn));
         v.push(Prog { name, pages: 70, threads: vec![x.clone(), vec![MarkRange(5, 2)], vec![Harvest]] });
     }
     v
